@@ -121,7 +121,7 @@ fn spec(prop: &str) -> CheckSpec {
         prop: p,
         rule,
         assumptions: &[
-            "the reference model (harness/src/model) is a faithful reading of the property statements; conventions U1-U6 (DESIGN 3.3) accept either outcome where the properties are silent",
+            "the reference model (harness/src/model) is a faithful reading of the property statements; conventions U1-U9 (DESIGN 3.3) accept either outcome where the properties are silent",
             "the read-only hook Vt::verif_state() reports the hidden fields truthfully",
             "resize content (re-wrapped cells, cursor) is adopted from the real terminal and judged by C02/C10/C16, not here",
         ],
